@@ -814,6 +814,7 @@ def rules():
                  r11_balance,
                  "induction over the tree: balanced children texts + balanced own literals on every decision-consistent "
                  "path = balanced translation; (), {}, [], <>, double quotes"),
+        RuleSpec("C12-R13", "a rendered `<type> <name>` is taken apart at its last blank only", 1, r13_no_first_token),
         RuleSpec("C12-R12", "the lists of a declaration are rendered independently of each other (no elif chain over two lists)", 40,
                  r12_collections_independent),
     ]
@@ -842,6 +843,52 @@ def r12_collections_independent(repo):
                     _w(f, j), not bad,
                     "`%s` is printed only when %s is empty: the lists of a declaration are rendered independently of each "
                     "other" % (src(j)[:60], sorted(set(bad)))))
+    return obs
+
+
+def r13_no_first_token(repo):
+    """A rendered declaration is `<type> <name>` and a type may contain blanks (`Function1<A, B>`, `? super T`): where a
+    translator takes such a text apart again, the name is its last token and the type is everything before the last blank
+    (`rsplit(' ', 1)[0]`, `split()[-1]`).  Taking a *leading* token of a whitespace split (`split()[0]`, also through a
+    list of split results) truncates every type with a blank in it."""
+    obs = []
+    for lang in LANGS:
+        m = repo.module("src.translators." + lang)
+        for q, f in sorted(repo.functions.items()):
+            if f.module is not m or f.outer is not None:
+                continue
+            splits = [c for c in ast.walk(f.node) if isinstance(c, ast.Call) and isinstance(c.func, ast.Attribute) and
+                      c.func.attr == "split" and len(c.args) <= 1 and not c.keywords]
+            if not splits:
+                continue
+            holders = set()
+            bad = []
+            for c in splits:
+                par = getattr(c, "_parent", None)
+                if isinstance(par, ast.Subscript) and par.value is c:
+                    k = const_value(par.slice, None)
+                    if isinstance(k, int) and k >= 0:
+                        bad.append(src(par))
+                    continue
+                # the pieces are kept: N = x.split() / L = [x.split() for x in ..] / L.append(x.split())
+                st = par
+                while st is not None and not isinstance(st, ast.stmt):
+                    st = getattr(st, "_parent", None)
+                if isinstance(st, ast.Assign) and isinstance(st.targets[0], ast.Name):
+                    holders.add(st.targets[0].id)
+            # names that range over a holder
+            for n in ast.walk(f.node):
+                if isinstance(n, (ast.For, ast.comprehension)) and isinstance(n.iter, ast.Name) and n.iter.id in holders:
+                    holders |= {x.id for x in ast.walk(n.target) if isinstance(x, ast.Name)}
+            for n in ast.walk(f.node):
+                if isinstance(n, ast.Subscript) and isinstance(n.value, ast.Name) and n.value.id in holders:
+                    k = const_value(n.slice, None)
+                    if isinstance(k, int) and k >= 0 and isinstance(getattr(n, "ctx", None), ast.Load):
+                        bad.append(src(n))
+            obs.append(Ob("C12-R13", "%s:%s:rendered-text-split-at-its-last-blank" % (lang, f.name), _w(f, splits[0]), not bad,
+                          "%s takes leading tokens of a whitespace split of rendered text (%s): a type with a blank in it "
+                          "(`Function1<A, B>`) is cut short; the name is the last token, the type everything before the last "
+                          "blank" % (f.name, sorted(set(bad)))))
     return obs
 
 
